@@ -671,7 +671,6 @@ func selftest() {
 	fmt.Println("vf selftest ok:", len(checks), "checks registered")
 }
 
-
 var raceScopeRe = regexp.MustCompile(`\.subs\b|sessCache|\.lru\b|terminating|lastAction|\.status\b|lastTouched`)
 var raceFrameRe = regexp.MustCompile(`^\s+(/\S+\.go):(\d+)`)
 
